@@ -65,6 +65,10 @@ def shapes():
     wf('wf-neg-1', first, lambda i, n: ('-', 0, 1), None)        # a negative value has no finite set of bits to flip: rejected
     wf('wf-not-5', first, lambda i, n: ('~', 5), first)
     wf('wf-ret-2^w', first, lambda i, n: 6, lambda i, n: ('+', ('<<', 1, W_), ('*', 4, W_)))  # a return address that does not fit
+    # `$` (the address after the statement) in exactly one of the three operands of a 3-operand wflip
+    wf('wf-$addr', lambda i, n: ('-', DOLLAR, ('*', 2, W_)), lambda i, n: 6, first)
+    wf('wf-$value', first, lambda i, n: ('&', DOLLAR, 14), first)
+    wf('wf-$ret', first, lambda i, n: 6, lambda i, n: DOLLAR)
     for k in (1, 2, 3, 4, 6):
         S.append((f'pad{k}', lambda i, n, k=k: ('pad', k)))
     for kind in ('adjacent', 'gap', 'overlap0', 'unaligned', 'walign', 'huge', 'top'):
